@@ -142,13 +142,27 @@ def repo_frame(tb):
     return where
 
 
-CLAUSE = {"EQUALS": "equals", "STARTS_WITH": "text-test", "ENDS_WITH": "text-test", "CONTAINS": "text-test",
-          "GREATER_THAN": "order", "LESS_THAN": "order", "GREATER_THAN_OR_EQUAL": "order",
-          "LESS_THAN_OR_EQUAL": "order", "REGEX": "regex"}
+def spec_branch(method, needle, hay):
+    """Which clause of the statement decides this call (the oracle's branch)."""
+    th, tn = spec_typed(denote(hay)), spec_typed(denote(needle))
+    num = lambda v: isinstance(v, (int, float))
+    if method == "EQUALS":
+        if isinstance(th, bool) and isinstance(tn, bool):
+            return "equals-bool-bool"
+        if isinstance(th, int) and isinstance(tn, int) and not isinstance(tn, bool):
+            return "equals-int-int"
+        if isinstance(th, float) and isinstance(tn, float):
+            return "equals-float-float"
+        return "equals-textual"
+    if method in ("STARTS_WITH", "ENDS_WITH", "CONTAINS", "REGEX"):
+        return method.lower()
+    if num(th):
+        return "%s-numeric" % method.lower() if num(tn) else "%s-numeric-vs-non-numeric-term" % method.lower()
+    return "%s-lexicographic" % method.lower()
 
 
 def classify_mismatch(method, needle, hay):
-    """Key of a wrong answer: which clause, and which feature of the operands the code mishandles."""
+    """Key of a wrong answer: the feature of the operands the code mishandles, else the failing clause."""
     from yamlpath.common import Nodes
     if type(hay).__name__ == "ScalarBoolean" or type(needle).__name__ == "ScalarBoolean":
         return "C12/anchored-boolean-compared-as-int"
@@ -162,10 +176,21 @@ def classify_mismatch(method, needle, hay):
             # typed_value turned text into a non-numeric Python literal (list, tuple, quoted str, complex ...)
             return "C12/haystack-text-replaced-by-evaluated-python-literal"
         if type(th) is not type(tv):
-            return "C12/typed-value-disagrees-on-%s" % kind(hay)
-    if not isinstance(needle, str) and isinstance(needle, (int, float)) and type(needle) not in (int, float, bool):
-        return "C12/%s-numeric-subclass-needle-not-compared-numerically" % CLAUSE[method]
-    return "C12/%s-wrong-for-%s-vs-%s" % (CLAUSE[method], kind(hay).split("~")[0], kind(needle).split("~")[0])
+            return "C12/typed-value-disagrees-on-%s" % kind(hay).split("~")[0]
+    if isinstance(needle, str):
+        try:
+            tvn = Nodes.typed_value(needle)
+        except Exception:
+            tvn = needle
+        scalar_types = (type(None), bool, int, float)
+        if type(spec_typed(needle)) is not type(tvn) and (
+                isinstance(tvn, scalar_types) or isinstance(spec_typed(needle), scalar_types)):
+            return "C12/typed-value-disagrees-on-%s" % kind(needle).split("~")[0]
+    branch = spec_branch(method, needle, hay)
+    if (branch in ("equals-int-int", "equals-float-float") and not isinstance(needle, str)
+            and type(needle) not in (int, float, bool)):
+        return "C12/equals-numeric-subclass-needle-not-compared-numerically"
+    return "C12/%s-clause-wrong" % branch
 
 
 def check_call(col, method, hay_desc, needle_desc, mode):
